@@ -26,7 +26,7 @@ ALLOWED_UNDEF = {"memcmp", "memset", "memmove", "memcpy", "strlen", "printf", "p
                  "__printf_chk", "__snprintf_chk", "__memmove_chk", "__memcpy_chk", "__memset_chk"}
 
 def run(cmd, **kw):
-    return subprocess.run(cmd, stdout=subprocess.PIPE, stderr=subprocess.PIPE, universal_newlines=True, **kw)
+    return subprocess.run(cmd, stdout=subprocess.PIPE, stderr=subprocess.PIPE, encoding="utf-8", errors="replace", **kw)
 
 def short(title):
     # "/repo/src/binson_parser.c:_parse_integer" -> "_parse_integer"
